@@ -110,13 +110,16 @@ func (l *maximumImpl) Lock(model Model) error {
 
 	planUnits := model.PlanStopsUnits()
 
-	l.hasNoEffect = make([]bool, len(planUnits))
+	// indexed by plan unit index, which counts all plan units of the model
+	nPlanUnits := len(model.PlanUnits())
+
+	l.hasNoEffect = make([]bool, nPlanUnits)
 
 	if !l.hasStopExpressionAndNoNegativeValues {
 		return nil
 	}
 
-	l.deltas = make([]float64, len(planUnits))
+	l.deltas = make([]float64, nPlanUnits)
 
 	for _, planUnit := range planUnits {
 		delta := 0.0
